@@ -21,15 +21,18 @@ func runC03(r *engine.Run) {
 	r.Rule("CLONE-store", "MemoryNodeDB stores CloneNode() of the node it is given (never the caller's object); the trie populates its node cache only through TransactionCache.Set (which clones, C07)")
 	r.Rule("DOM-cancel", "see C05: a node that is live again in the child never stays in the child's delete set (the merge would delete it from the parent)")
 	r.Rule("FRESH-bytes", "the byte slices handed out by the node accessors (MarshalMsg, Encode, GetHashBytes, GetValueBytes in core/util) are new buffers on every return: nil, make/conversion results, results of calls that produce new buffers, or appends to such; never a field, element, global or map entry. FRESH-node relies on this, and callers of GetNodeValueRaw own (and may overwrite) the slice they get")
+	r.Rule("AGREE-snapshot", "in MergeMPTChanges the new root, the changes, the deletes and the start root handed to the merge routine are results of one and the same GetChanges call on the child (one instant of the child's state)")
 	r.Rule("FRESH-node", "in the trie operations no node field store, node mutator call (SetValue, PutChild, SetOrigin, SetVersion, SetOriginTracker, Decode, CopyFrom) or in-place byte-slice write (append base, copy destination, element store) targets memory that derives from a node handed out by the store/cache, from a caller's argument or from a shallow copy; only constructor results, Clone() results, concat/make results and literals may be written (interprocedural source-label dataflow, parameters by fixpoint over call sites)")
 	r.Rule("DOM-adopt", "in MergeMPTChanges, MergeChanges and mergeChanges every return either returns a provably non-nil error, returns the result of mergeChanges, is dominated by the adoption of the child's root (mergeChanges call / setRoot(newRoot) / store of newRoot to root), or is reached only where bytes.Equal(this trie's root, the child's root) held: a merge never reports success while the parent keeps a root different from the child's")
 	r.Rule("WHO-tombstones", "LevelNodeDB.DeletedNodes (tombstones of deletes that were not propagated) is never read by the level store's lookups (getNode, GetNode, MultiGetNode, Iterate, Size): tombstones are not cleared when a node is stored again")
+	r.Rule("AGREE-nostamp", "mergeChanges installs the nodes of the child's change set without re-stamping them (the installer it calls in the replay loop sets no origin/version on the node): a node the child took over from another version keeps the hash the child's root refers to, and the donor store's object is not written")
 	r.Rule("DOM-mergeall", "in mergeChanges every iteration of the loop over the child's changes passes insertNode (only an error return leaves the loop early): no change is skipped")
 	r.NotDec = append(r.NotDec, "equality of parent and child views after arbitrary histories")
 	whoPrev(r)
 	domMerge(r)
 	cloneStore(r)
 	freshNode(r, "C03")
+	agreeMergeSnapshot(r, "AGREE-snapshot")
 	domCancel(r)
 	domAdopt(r, "DOM-adopt")
 	whoTombstones(r, "WHO-tombstones")
@@ -221,7 +224,9 @@ func domMerge(r *engine.Run) {
 				switch sc.Name() {
 				case "insertNode", "deleteNode", "setRoot":
 				default:
-					return
+					if !isNodeInstaller(r, c) {
+						return
+					}
 				}
 				n++
 				r.CallSites++
@@ -497,7 +502,7 @@ func domMergeAll(r *engine.Run, rule string) {
 	}
 	var ins *ssa.Call
 	engine.Instrs(f, func(in ssa.Instruction) {
-		if c, ok := in.(*ssa.Call); ok && staticCalleeIs(c, pkgUtil, "MerklePatriciaTrie", "insertNode") && inLoopBody(c.Block()) {
+		if c, ok := in.(*ssa.Call); ok && isNodeInstaller(r, c) && inLoopBody(c.Block()) {
 			ins = c
 		}
 	})
@@ -510,6 +515,31 @@ func domMergeAll(r *engine.Run, rule string) {
 		r.Anchor(rule, fmt.Errorf("unresolved anchor: loop head of the change replay"))
 		return
 	}
+	// the nodes of the child's change set are installed as the child built them: the
+	// installer used by the replay does not stamp this trie's version on them. A node
+	// the child took over from another version (MergeDB) would get a new hash, under
+	// which nothing refers to it, and the stamp would be written into the object the
+	// other store still holds.
+	stamps := ""
+	if g := ins.Call.StaticCallee(); g != nil {
+		engine.Instrs(g, func(in ssa.Instruction) {
+			c, ok := in.(*ssa.Call)
+			if !ok {
+				return
+			}
+			for _, m := range []string{"SetOrigin", "SetVersion", "SetOriginTracker"} {
+				if recv, ok := engine.IsMethodCall(c, m); ok {
+					for _, p := range g.Params {
+						if recv == ssa.Value(p) {
+							stamps = m + " at " + r.P.Pos(c.Pos())
+						}
+					}
+				}
+			}
+		})
+	}
+	r.Check(stamps == "", "AGREE-nostamp", fn(f)+"|merged nodes keep their hash", r.P.Pos(ins.Pos()), "the replay installs the child's nodes without re-stamping them",
+		"the merge installs the child's nodes through a routine that stamps this trie's version on them ("+stamps+"): a node the child took over from another version (MergeDB, state sync) gets a new hash, so the root the merge installs refers to a node that is not in the store under that hash - the parent cannot read what it merged - and the stamp is written into the node object the donor store holds")
 	bypass := head != ins.Block() && loopBypass(head, ins.Block())
 	r.Check(!bypass, rule, fn(f)+"|replays every change", r.P.Pos(ins.Pos()), "every iteration of the replay loop passes insertNode",
 		"the replay loop can skip a change of the child (a path to the next iteration bypasses insertNode): the skipped node is neither stored at this level nor taken out of the dead set, so the merged state loses or later prunes a live node")
@@ -524,4 +554,61 @@ func pathTruth(p map[string]bool, c *ssa.Call) (truth, had bool) {
 	}
 	v, ok := p[engine.ValKey(c)]
 	return v, ok
+}
+
+// agreeMergeSnapshot: MergeMPTChanges publishes the child's view in the parent:
+// new root, changes, deletes and start root. The four belong to one instant of
+// the child (GetChanges reads them under one hold of the child's lock, see C16
+// LOCK-snapshot); a root read by a separate call and combined with a later
+// change set installs a root whose nodes were never handed over.
+//
+// Rule: the four arguments of the merge routine in MergeMPTChanges are results
+// of one and the same GetChanges call on the child.
+func agreeMergeSnapshot(r *engine.Run, rule string) {
+	f := r.Fn(rule, pkgUtil, "MerklePatriciaTrie", "MergeMPTChanges")
+	if f == nil {
+		return
+	}
+	n := 0
+	engine.Instrs(f, func(in ssa.Instruction) {
+		c, ok := in.(*ssa.Call)
+		if !ok {
+			return
+		}
+		g := c.Call.StaticCallee()
+		if g == nil || g == f || !inRepo(g) || recvNamed(g) != "MerklePatriciaTrie" || len(c.Call.Args) < 5 {
+			return
+		}
+		// the merge routine: a trie method that takes root, changes, deletes, start root
+		var src *ssa.Call
+		same, all := true, true
+		cnt := 0
+		for _, a := range c.Call.Args[1:] {
+			ex, ok := stripConv(a).(*ssa.Extract)
+			if !ok {
+				all = false
+				continue
+			}
+			cc, ok := ex.Tuple.(*ssa.Call)
+			if !ok || !cc.Call.IsInvoke() || cc.Call.Method.Name() != "GetChanges" {
+				all = false
+				continue
+			}
+			cnt++
+			if src == nil {
+				src = cc
+			} else if src != cc {
+				same = false
+			}
+		}
+		if cnt == 0 {
+			return
+		}
+		n++
+		r.Check(all && same && cnt >= 4, rule, fn(f)+"|one snapshot of the child", r.P.Pos(c.Pos()), "root, changes, deletes and start root handed to the merge come from one GetChanges call",
+			"the merge is given a root that does not come from the same GetChanges call as the change set (it was read by a separate call): an insert on the child between the two reads makes the parent install an older root with a newer change set, or a newer root whose nodes were never handed over")
+	})
+	if n < 1 {
+		r.Anchor(rule, fmt.Errorf("unresolved anchor: the merge call in MergeMPTChanges"))
+	}
 }
